@@ -5,6 +5,7 @@ package main
 // (bit-vectors of the Go width). Both are exact encodings of Go arithmetic.
 
 import (
+	"regexp"
 	"fmt"
 	"math/big"
 	"sort"
@@ -673,6 +674,32 @@ type printer struct {
 	usesNIA bool
 	abstractBits bool // variable-by-variable bitwise operators as uninterpreted functions (sound for proving)
 	usedAbstraction bool
+	// canonical naming: the text of a query depends only on the query, not on how many terms
+	// and fresh symbols the process created before it (solver run times depend on names)
+	localID map[int]int
+	symCanon map[string]string
+	symCount map[string]int
+}
+
+var symNumRe = regexp.MustCompile(`![0-9]+`)
+
+// canon renumbers the "!N" freshness suffixes of a symbol by order of first appearance.
+func (p *printer) canon(name string) string {
+	if !strings.Contains(name, "!") {
+		return name
+	}
+	if c, ok := p.symCanon[name]; ok {
+		return c
+	}
+	if p.symCanon == nil {
+		p.symCanon = map[string]string{}
+		p.symCount = map[string]int{}
+	}
+	stem := symNumRe.ReplaceAllString(name, "!")
+	p.symCount[stem]++
+	c := fmt.Sprintf("%s%d", stem, p.symCount[stem])
+	p.symCanon[name] = c
+	return c
 }
 
 func pow2(n int) *big.Int { return new(big.Int).Lsh(big.NewInt(1), uint(n)) }
@@ -746,14 +773,14 @@ func (p *printer) ref(t *Term) string {
 	case OConst:
 		out = p.constStr(t.Val, t.Sort)
 	case OVar:
-		nm := "|" + t.Name + "|"
+		nm := "|" + p.canon(t.Name) + "|"
 		p.declare(nm, fmt.Sprintf("(declare-fun %s () %s)", nm, p.sortStr(t.Sort)))
 		if p.mode == ModeInt && t.Sort.Kind == SInt {
 			p.declare(nm+"#range", fmt.Sprintf("(assert (and (<= %s %s) (<= %s %s)))", p.num(t.Sort.Min()), nm, nm, p.num(t.Sort.Max())))
 		}
 		out = nm
 	case OApp:
-		nm := "|" + t.Name + "|"
+		nm := "|" + p.canon(t.Name) + "|"
 		var as []string
 		var ss []string
 		for _, a := range t.Args {
@@ -783,7 +810,13 @@ func (p *printer) ref(t *Term) string {
 }
 
 func (p *printer) bind(t *Term, expr string) string {
-	nm := fmt.Sprintf("tm_%d", t.id)
+	if p.localID == nil {
+		p.localID = map[int]int{}
+	}
+	if _, ok := p.localID[t.id]; !ok {
+		p.localID[t.id] = len(p.localID) + 1
+	}
+	nm := fmt.Sprintf("tm_%d", p.localID[t.id])
 	p.defs = append(p.defs, fmt.Sprintf("(define-fun %s () %s %s)", nm, p.sortStr(t.Sort), expr))
 	p.done[t.id] = nm
 	return nm
@@ -1424,4 +1457,40 @@ func rng(t *Term) interval {
 func noWrap(t *Term) bool {
 	m, ok := mathRange(t)
 	return ok && m.within(t.Sort)
+}
+
+// relConds strips from each path condition the conjuncts all of them share. Selecting between
+// merged values by the remainders is equivalent wherever the merged state's own path condition
+// (which contains the shared part) holds, and keeps the selectors small.
+func relConds(pcs []*Term) []*Term {
+	if len(pcs) < 2 {
+		return pcs
+	}
+	conj := func(t *Term) []*Term {
+		if t.Op == OAnd {
+			return t.Args
+		}
+		return []*Term{t}
+	}
+	count := map[int]int{}
+	for _, p := range pcs {
+		seen := map[int]bool{}
+		for _, c := range conj(p) {
+			if !seen[c.id] {
+				seen[c.id] = true
+				count[c.id]++
+			}
+		}
+	}
+	out := make([]*Term, len(pcs))
+	for i, p := range pcs {
+		var r []*Term
+		for _, c := range conj(p) {
+			if count[c.id] != len(pcs) {
+				r = append(r, c)
+			}
+		}
+		out[i] = And(r...)
+	}
+	return out
 }
